@@ -724,7 +724,9 @@ class OutputAgent:
 
                         # VV: filepath is a relative path to the workflow instance
                         f.write("filepath=%s\n" % status['lastLocation'])
-                        f.write("description=%s\n" % status['description'])
+                        # VV: the description is free text: the lines after the first one are continuation lines of
+                        #     the value (this is how configparser itself writes a value that spans several lines)
+                        f.write("description=%s\n" % str(status['description']).replace('\n', '\n\t'))
                         f.write("type=%s\n" % status['type'])
                         f.write("creationTime=%s\n" % status['creationTime'])
                         f.write("version=%d\n" % status['version'])
